@@ -75,6 +75,26 @@ func (v *Verifier) resolveLibNameIn(x *Exec, env *Env, name string) string {
 			}
 		}
 	}
+	// pkg.Name: prefer the package that the current package imports under that name
+	if i := strings.Index(name, "."); i > 0 {
+		pn, fnm := name[:i], name[i+1:]
+		var pkgs []*types.Package
+		if env.pkg != nil {
+			pkgs = append(pkgs, env.pkg)
+		}
+		if x.fn != nil && x.fn.Pkg != nil {
+			pkgs = append(pkgs, x.fn.Pkg.Pkg)
+		}
+		for _, p := range pkgs {
+			for _, imp := range p.Imports() {
+				if imp.Name() == pn {
+					if _, ok := v.cs.Contracts[imp.Path()+"."+fnm]; ok {
+						return imp.Path() + "." + fnm
+					}
+				}
+			}
+		}
+	}
 	return v.resolveLibName(name)
 }
 
